@@ -197,3 +197,27 @@ func RingMul(params rlwe.Parameters, a, b []*big.Int) []*big.Int { return rk.Mul
 func RingAuto(params rlwe.Parameters, a []*big.Int, g uint64) []*big.Int {
 	return rk.Auto(params.RingType(), a, g)
 }
+
+// FillGadget overwrites every polynomial of a gadget ciphertext with uniform residues (keyed, reproducible): the
+// content of a receive buffer that held some other share.
+func FillGadget(params rlwe.Parameters, g *rlwe.GadgetCiphertext, key ...interface{}) {
+	prng := uni.KeyedPRNG(key...)
+	for i := range g.Value {
+		for j := range g.Value[i] {
+			for k := range g.Value[i][j] {
+				p := g.Value[i][j][k]
+				ringqp.NewUniformSampler(prng, params.RingQP().AtLevel(p.LevelQ(), p.LevelP())).Read(p)
+			}
+		}
+	}
+}
+
+// UsedShapes are the two receiver shapes of the decode-into-used-receiver variants for evaluation-key shaped
+// shares: A the largest (all of Q and P, the finest base two => most rows), B the smallest (level 0, no P, one row).
+func UsedShapes(params rlwe.Parameters, which int) rlwe.EvaluationKeyParameters {
+	lq, lp, b2 := params.MaxLevelQ(), params.MaxLevelP(), 7
+	if which == 1 {
+		lq, lp, b2 = 0, -1, 0
+	}
+	return rlwe.EvaluationKeyParameters{LevelQ: &lq, LevelP: &lp, BaseTwoDecomposition: &b2}
+}
